@@ -6,14 +6,16 @@ From Cb Require Import C14.Model C14.Lemmas C14.Quiet C14.Refine C14.Invariants 
 Import ListNotations.
 
 (* The refinement, for the fragment "yields and loops at the top level of the body" (wf_body: every
-   top-level statement is a yield, a statement free of yields and loops, or a while/for loop whose
-   body is free of yields and loops; loop variables are not parameters and are not mentioned after
-   their loop).  For every such body, every argument list, every await oracle aw and every loop
+   top-level statement is a yield, a statement free of yields and loops, a while/for loop whose
+   body is free of yields and loops, or a while loop whose body is free of yields and loops up to
+   one trailing yield - the idiom `while (c) { ...; yield; }`; loop variables are not parameters and
+   are not mentioned after their loop).  For every such body, every argument list, every await oracle aw and every loop
    bound: if the body run alone ends, there is a number n of step grants after which the task is
    complete, and for EVERY number m >= n of grants the concatenated output of the steps, the result,
    and the locals off the loop variables are exactly those of the body run alone.
-   Missing for the full law (all bodies): yield inside a block / branch / loop body, a loop inside a
-   branch or inside another loop, a loop variable reused later - each refuted below. *)
+   Missing for the full law (all bodies): yield inside a block / branch, yield inside a loop body
+   other than as the last statement of a while body, a loop inside a branch or inside another loop,
+   a loop variable reused later - each refuted below. *)
 Theorem resume_refines_sequential_partial :
   forall (aw : nat -> Z -> Z) (fuel : nat) body args ls' out r,
     wf_body (map fst args) body = true ->
@@ -26,21 +28,21 @@ Theorem resume_refines_sequential_partial :
 Proof. exact resume_refines_sequential_l. Qed.
 Print Assumptions resume_refines_sequential_partial.
 
-(* Locals survive suspension, one statement at a time, at ANY index of ANY body: a step whose
-   statement is free of yields and loops runs that statement exactly as the sequential semantics
-   does on the locals saved by the previous step (here P = all variables), saves the resulting
-   locals back, leaves the resume table empty and moves to the next statement (or completes with
-   the returned value). *)
+(* Locals survive suspension, one statement at a time, at ANY index of ANY body and for any resume
+   table without an entry at or below that statement: a step whose statement is free of yields and
+   loops runs that statement exactly as the sequential semantics does on the locals saved by the
+   previous step, saves the resulting locals back (equal as maps), leaves the resume table as it
+   was and moves to the next statement (or completes with the returned value). *)
 Theorem locals_survive_suspension :
-  forall (aw : nat -> Z -> Z) (fuel : nat) body idx s ret lm,
-    nth_error body idx = Some s -> quiet s = true ->
+  forall (aw : nat -> Z -> Z) (fuel : nat) body idx s ret lm m,
+    nth_error body idx = Some s -> quiet s = true -> fresh [idx] m ->
     exists lm' ls' o r,
       sexec aw fuel s lm = (ls', o, r) /\ r <> SFuel /\ (forall y, lookup y lm' = lookup y ls') /\
       exists ev, outputs_of ev = o /\
-        mstep aw fuel (T body idx lm false ret) =
+        mstep aw fuel (T body idx lm m false ret) =
         (match r with
-         | SReturn_ v => T body idx lm' true (Some v)
-         | _ => T body (S idx) lm' (done_after body idx) ret
+         | SReturn_ v => T body idx lm' m true (Some v)
+         | _ => T body (S idx) lm' m (done_after body idx) ret
          end, ev).
 Proof. exact locals_survive_l. Qed.
 Print Assumptions locals_survive_suspension.
@@ -151,8 +153,8 @@ Print Assumptions await_enum_refuted.
 Example fragment_example :
   wf_body [O; 1; 2] ex_fragment = true /\
   let aw := fun (_ : nat) (a : Z) => (a + 100)%Z in
-  let '(t, ev) := mrun aw 10 20 (spawn ex_fragment [(O, 5%Z); (1, 2%Z); (2, 0%Z)]) in
-  let '(l, o, r) := spec_run aw 10 ex_fragment [(O, 5%Z); (1, 2%Z); (2, 0%Z)] in
+  let '(t, ev) := mrun aw 10 30 (spawn ex_fragment [(O, 5%Z); (1, 2%Z); (2, 2%Z)]) in
+  let '(l, o, r) := spec_run aw 10 ex_fragment [(O, 5%Z); (1, 2%Z); (2, 2%Z)] in
   t_done t = true /\ outputs_of ev = o /\ t_ret t = Some 108%Z /\ r = SReturn_ 108%Z /\
-  o = [(0, 5%Z); (1, 1%Z); (2, 5%Z); (3, 100%Z); (3, 101%Z)].
+  o = [(0, 5%Z); (1, 1%Z); (2, 5%Z); (3, 100%Z); (3, 101%Z); (4, 1%Z); (4, 0%Z)].
 Proof. vm_compute. repeat split; reflexivity. Qed.
